@@ -52,6 +52,7 @@ type interp struct {
 	curWhere   string
 	curInstr   ssa.Instruction
 	curFr      *frame
+	tickers    []*channel
 	bigTaken   [][]value
 	lazyCells  []*value
 }
